@@ -206,6 +206,7 @@ type FnCtx struct {
 	obs     []*Obligation
 	counts  map[string]int
 	touched map[string]bool // heap keys written in this function
+	quiet   int // > 0 while a contract-less helper is executed in place: no safety obligations
 	views   map[string]viewInfo // byte regions that mirror a flat struct (unsafe views), by region ref
 	notes   map[string]bool // abstractions / assumptions reached
 	light   bool
